@@ -34,7 +34,7 @@ def resolveDependsOn (m : LMap) (dep : String) : Except Err String := do
 
 /-- the four identifier values handed to the template -/
 def generateRevision (m : LMap) (a : GenArgs) : Except Err Rev := do
-  if a.revid.toList.any (· ∈ illegalChars) then throw .commandError   -- `verify_rev_id`
+  if a.revid.toList.any (· ∈ illegalChars) then throw .revisionError  -- `verify_rev_id` (CommandError from RevisionError)
   let heads ← getRevisionsMany m a.heads
   if hasDup heads then throw .commandError                           -- "Duplicate head revisions specified"
   if !a.splice then
